@@ -116,7 +116,7 @@ fn trace_strategy(_tier: Tier) -> BoxedStrategy<TraceCase> {
                 a
             }),
         1usize..=8,
-        proptest::collection::vec(0usize..60, 0..3),
+        prop_oneof![3 => Just(vec![]), 1 => proptest::collection::vec(0usize..60, 1..3)],
         proptest::collection::vec(op_strategy(), 0..14),
     )
         .prop_map(|(trace, max_n, extrapolate_to, history)| TraceCase { trace, max_n, extrapolate_to, history })
